@@ -27,6 +27,9 @@ class Bounds:
     budget: int = 2
     exotic: bool = False
     rich: bool = False  # all 7 wrong kinds at every depth, non-empty wrong containers
+    int_abs: int = 0  # > 0: int leaves range over [-int_abs, int_abs] (str(int) forks per digit)
+    float_pool: bool = False  # float leaves from a finite pool (str(float) / int(float) realise)
+    str_pool: bool = False  # str leaves from a finite pool (int(str) / dict lookups realise)
 
     def as_dict(self):
         return dict(self.__dict__)
@@ -44,6 +47,9 @@ class DictSub(dict):
     pass
 
 
+STR_POOL = ["", "0", "1", "7", "-3", "1.5", " 4", "1e2", "x", "a", "true", "No", "OFF", "yes ", "nan", "inf", "\uff11"]
+FLOAT_POOL = [0.5, 1.0, -2.5, 1e300, float("nan"), float("inf")]
+NESTED_EXOTIC = ["tuple", "strsub", "nonstrkey", "huge"]
 EXOTIC = ["bytes", "tuple", "intsub", "strsub", "dictsub", "nonstrkey", "inf", "nan", "huge", "set", "object"]
 
 
@@ -56,6 +62,7 @@ class Gen:
         self.defs = named(prog.spec)
         self.budget = bounds.budget
         self.truncated = False
+        self.hashed = 0  # > 0 while generating elements the code will put in a set
 
     # ------------------------------------------------------------------ leaves
     def shallow(self, kind: str):
@@ -65,10 +72,16 @@ class Gen:
         if kind == "bool":
             return c.bool("b")
         if kind == "int":
+            if self.b.int_abs:
+                return c.int("i", -self.b.int_abs, self.b.int_abs)
             return c.int("i")
         if kind == "float":
+            if self.b.float_pool:
+                return c.pick(FLOAT_POOL, "fp")
             return c.float("f")
         if kind == "str":
+            if self.b.str_pool:
+                return c.pick(STR_POOL, "sp")
             return c.str("s", self.b.strlen)
         if kind == "list":
             return [c.int("i")] if (self.b.rich and c.flag("ne")) else []
@@ -117,10 +130,20 @@ class Gen:
         cands = list(acc)
         if self.budget > 0:
             excl = self.excluded_kinds(s)
-            wrong = KINDS if (self.b.rich or depth >= self.b.depth) else NESTED_WRONG
+            top = depth >= self.b.depth
+            wrong = KINDS if (self.b.rich or top) else NESTED_WRONG
             cands += [k for k in wrong if k not in acc and k not in excl]
-            if self.b.exotic:
-                cands += EXOTIC
+            if self.b.exotic and len(acc) < len(KINDS):
+                # non-JSON values are deviations only where the type does not accept
+                # everything; NaN / inf are ordinary float leaves where float is accepted
+                ex = EXOTIC if (self.b.rich or top) else NESTED_EXOTIC
+                # a 10**400 next to a symbolic float inside a set is beyond CrossHair's set
+                # model (OverflowError artefact, probed): kept out of hashed positions
+                cands += [
+                    k
+                    for k in ex
+                    if not (k in ("nan", "inf") and "float" in acc) and not (k == "huge" and self.hashed)
+                ]
         if not cands:
             raise Assume("no candidate kind")
         kind = self.ctx.pick(cands, "kind")
@@ -152,7 +175,17 @@ class Gen:
         if k == "ref":
             return self.directed(self.defs[s.opt("name")], kind, depth)
         if k in ("ann", "newtype", "undef"):
-            return self.directed(s.a[0], kind, depth)
+            uniq = k == "ann" and bool(dict(s.opt("c") or ()).get("unique"))
+            self.hashed += uniq
+            try:
+                r = self.directed(s.a[0], kind, depth)
+            finally:
+                self.hashed -= uniq
+            if k == "ann" and dict(s.opt("c") or ()).get("unique") and isinstance(r, list):
+                for x in r:  # NaN is not reflexive: outside the oracle domain of uniqueItems
+                    if isinstance(x, float) and x != x:
+                        raise Assume("NaN under uniqueItems")
+            return r
         if k == "opt":
             if kind == "null":
                 return None
@@ -178,7 +211,11 @@ class Gen:
                 self.truncated = True
                 return []
             n = c.choice(self.b.width + 1, "len")
-            out = [self.json(s.a[0], depth - 1) for _ in range(n)]
+            self.hashed += k in ("set", "fset")
+            try:
+                out = [self.json(s.a[0], depth - 1) for _ in range(n)]
+            finally:
+                self.hashed -= k in ("set", "fset")
             if k in ("set", "fset"):
                 for x in out:  # NaN is not reflexive: outside the oracle domain for sets
                     if isinstance(x, float) and x != x:
